@@ -657,7 +657,9 @@ def rule_x1x2(ctx):
                 g = _resolve_helper(ctx, f, c)
                 if g is None:
                     continue
-                off = 1 if (g.cls is not None and isinstance(
+                static = any(dotted(d) == "staticmethod"
+                             for d in g.node.decorator_list)
+                off = 1 if (g.cls is not None and not static and isinstance(
                     c.func, ast.Attribute) and dotted(c.func.value) == "self") \
                     else 0
                 names = [g.params[i + off] for i in passed
